@@ -16,20 +16,23 @@ from common import ToolError, log
 TYPE_POOL = ["Eof", "Eof2", "Quasiterminal", "Quasiterminal2", "QuasiterminalKind", "NonterminalKind", "State", "State2", "Node", "Node2",
              "Action", "RuleKind", "ACTION_TABLE", "GOTO_TABLE", "ACTION_TABLE2", "S", "S2", "T", "Terminal", "Error", "Item", "Shift",
              "Reduce", "Accept", "S0", "R0", "_1", "__", "Self_", "Token"]
-ROLES = ["tenum", "t1", "start", "en", "v1", "tu", "un"]
-BENIGN = {"tenum": "Tok", "t1": "Ta", "start": "Start0", "en": "En", "v1": "Va", "tu": "Tu", "un": "Un", "f1": "fld"}
+ROLES = ["tenum", "t1", "start", "en", "v1", "tu", "un", "em"]
+BENIGN = {"tenum": "Tok", "t1": "Ta", "start": "Start0", "en": "En", "v1": "Va", "tu": "Tu", "un": "Un", "em": "Em", "f1": "fld"}
 
 
 def render(nm):
-    """The skeleton of MC_Hygiene!Mk as Kiki text: named-struct start symbol, enum, tuple struct, unit struct."""
-    st, en, tu, un = nm["nts"]
+    """The skeleton of MC_Hygiene!Mk as Kiki text: named-struct start symbol, enum, tuple struct, unit struct, variant-less
+    enum (a nonterminal without any production, referenced from one variant of the enum)."""
+    st, en, tu, un, em = nm["nts"]
     t1, t2 = nm["terms"]
     lines = ["start %s" % nm["start"],
              "terminal %s {" % nm["tenum"], "    $%s: crate::P" % t1, "    $%s: ()" % t2, "}",
              "struct %s { %s: %s %s: $%s _: $%s }" % (st["name"], st["fields"][0], en["name"], st["fields"][1], t1, t2),
-             "enum %s {" % en["name"], "    %s(%s $%s)" % (en["variants"][0], tu["name"], t1), "    %s { x: %s _: $%s y: $%s }" % (en["variants"][1], un["name"], t2, t1), "}",
+             "enum %s {" % en["name"], "    %s(%s $%s)" % (en["variants"][0], tu["name"], t1), "    %s { x: %s _: $%s y: $%s }" % (en["variants"][1], un["name"], t2, t1),
+             "    %s(%s)" % (en["variants"][2], em["name"]), "}",
              "struct %s($%s _: $%s %s)" % (tu["name"], t1, t2, un["name"]),
-             "struct %s" % un["name"]]
+             "struct %s" % un["name"],
+             "enum %s {}" % em["name"]]
     return "\n".join(lines) + "\n"
 
 
@@ -80,7 +83,7 @@ def check(prop, tier, seed):
         with open(extra, "w") as f:
             # the allocator's own fallback names: a user who has BOTH X and X2 (X a preferred internal name) - always included
             for base in ("Eof", "Quasiterminal", "State", "Node", "ACTION_TABLE", "S"):
-                for r1, r2 in (("start", "en"), ("tenum", "tu"), ("t1", "un"), ("en", "t1"), ("un", "start"), ("v1", "en")):
+                for r1, r2 in (("start", "en"), ("tenum", "tu"), ("t1", "un"), ("en", "t1"), ("un", "start"), ("v1", "en"), ("em", "start"), ("tenum", "em")):
                     a = dict(BENIGN)
                     a[r1], a[r2] = base, base + "2"
                     key = json.dumps(a, sort_keys=True)
@@ -90,7 +93,7 @@ def check(prop, tier, seed):
             # the template has a conditional branch for an enum variant called Error: combine it with every preferred
             # internal name (and its first fallback) in every other role
             for other in ("Node", "Node2", "Quasiterminal", "State", "Action", "RuleKind", "NonterminalKind", "QuasiterminalKind", "Eof", "S"):
-                for r2 in ("start", "en", "tu", "un", "tenum", "t1"):
+                for r2 in ("start", "en", "tu", "un", "tenum", "t1", "em"):
                     a = dict(BENIGN)
                     a["v1"], a[r2] = "Error", other
                     key = json.dumps(a, sort_keys=True)
@@ -102,9 +105,9 @@ def check(prop, tier, seed):
                 r1, r2 = rng.sample(ROLES, 2)
                 a = dict(BENIGN)
                 a[r1], a[r2] = rng.choice(TYPE_POOL), rng.choice(TYPE_POOL)
-                top = [a["tenum"], a["t1"], "Tb", a["start"], a["en"], a["tu"], a["un"]]
+                top = [a["tenum"], a["t1"], "Tb", a["start"], a["en"], a["tu"], a["un"], a["em"]]
                 key = json.dumps(a, sort_keys=True)
-                if len(set(top)) != 7 or a["v1"] == "Vb" or key in seen:
+                if len(set(top)) != 8 or a["v1"] in ("Vb", "Vc") or key in seen:
                     continue
                 seen.add(key)
                 f.write(json.dumps(a) + "\n")
@@ -153,14 +156,14 @@ def check(prop, tier, seed):
                 run.violation(vcase("rustc rejects the emitted module of a boundary grammar: %s" % first[:700], srcs[k], None))
             continue
         hostile = tuple(sorted((role, v) for role, v in (("tenum", nm["tenum"]), ("t1", nm["terms"][0]), ("start", nm["start"]), ("en", nm["nts"][1]["name"]),
-                               ("v1", nm["nts"][1]["variants"][0]), ("tu", nm["nts"][2]["name"]), ("un", nm["nts"][3]["name"]), ("f1", nm["nts"][0]["fields"][0]))
+                               ("v1", nm["nts"][1]["variants"][0]), ("tu", nm["nts"][2]["name"]), ("un", nm["nts"][3]["name"]), ("em", nm["nts"][4]["name"]), ("f1", nm["nts"][0]["fields"][0]))
                                if v != BENIGN[role]))
         run.nontrivial.add(hostile)
         if rc != 0:
             first = next((blk for blk in err.split("\n\n") if blk.startswith("error")), err[:600])
             run.violation(vcase("rustc rejects the emitted module: %s" % first[:700], srcs[k], nm))
     run.sample({"src": srcs[len(srcs) // 2], "chosen_names": namings[len(srcs) // 2]["chosen"]})
-    run.rule = "distinct assignments of hostile pool names to user roles (terminal enum, terminal, start symbol, enum, variant, tuple struct, unit struct, field) whose real emitted module was compiled on its own by rustc"
+    run.rule = "distinct assignments of hostile pool names to user roles (terminal enum, terminal, start symbol, enum, variant, tuple struct, unit struct, variant-less enum, field) whose real emitted module was compiled on its own by rustc"
     run.exhaustive = tier == "thorough"
     run.notes["modules_compiled"] = len(todo)
     run.assumptions = ["TLC/CommunityModules", "rustc 1.95 is the oracle for `compiles`", "skeleton grammar of MC_Hygiene!Mk; pool of 30 type-level and 12 field-level hostile names",
